@@ -26,7 +26,7 @@ use crate::tdd::{self, TddF, TddRef};
 pub fn meta() -> Meta {
     Meta {
         level: "exploration",
-        rule: "exhaustive enumeration of operand tuples of TDD functions. n=1 (threads 1 and 2): all 27 functions for build/not/eval(3 assignments, omitted argument)/cofactors, all 27^2 ordered pairs for each of the 8 binary connectives (once per connective in its own manager, once with all connectives interleaved in one manager), all 27^3 triples for ite, constants f/t/u and var under all assignments. n=2, both variable orders: all 19683 functions for build/not/eval(9 assignments, both argument orders, duplicate arguments, omitted arguments)/cofactors; the 8 binary connectives, interleaved in one manager with a rotating operator order, quick: on (f,g), (g,f), (f,f) for every f of all 19683 functions and every g of a 60-function representative set (constants, 10 one-variable shapes per variable, all connectives of the two literals, mixed and irregular tables), thorough: on all 19683^2 ordered pairs; ite on all triples of the 60-set, thorough adds every one of the 19683 functions in each ite position against all ordered pairs of a 30-function subset of the 60-set. A case is non-trivial when all operands are non-constant and pairwise distinct (no terminal/equality shortcut at the root); the enumerated tuples of one configuration (n, order) are distinct, except that n=1 pairs are run in two groups (per connective, interleaved) and n=1 is run with threads 1 and 2.",
+        rule: "exhaustive enumeration of operand tuples of TDD functions. n=1 (threads 1 and 2): all 27 functions for build/not/eval(3 assignments, omitted argument)/cofactors, all 27^2 ordered pairs for each of the 8 binary connectives (once per connective in its own manager, once with all connectives interleaved in one manager), all 27^3 triples for ite, constants f/t/u and var under all assignments. n=2, both variable orders: all 19683 functions for build/not/eval(9 assignments, both argument orders, duplicate arguments, omitted arguments)/cofactors; the 8 binary connectives, interleaved in one manager with a rotating operator order, quick: on (f,g), (g,f), (f,f) for every f of all 19683 functions and every g of a 60-function representative set (constants, 10 one-variable shapes per variable, all connectives of the two literals, mixed and irregular tables), thorough: on all 19683^2 ordered pairs; ite on all triples of the 60-set, thorough adds every one of the 19683 functions in each ite position against all ordered pairs of a 30-function subset of the 60-set. A case is non-trivial when all operands are non-constant and pairwise distinct (no terminal/equality shortcut at the root); the enumerated tuples of one configuration (n, order) are distinct, plus one 40-variable manager on which every variable and every pair of variables under the 8 connectives is evaluated at all value combinations (three background patterns for the other variables, arguments ascending and descending), except that n=1 pairs are run in two groups (per connective, interleaved) and n=1 is run with threads 1 and 2.",
         assumptions: vec![
             "operands are built through DiagramRules::reduce + then_insert with children in the documented order (true, unknown, false), not through the operators under test".into(),
             "results are read back by the harness's own interpreter over Manager::get_node; eval is compared against it separately".into(),
